@@ -264,7 +264,7 @@ func cmdCheck(args []string) int {
 			}
 			if okk {
 				tracesValidated++
-			} else if strings.HasPrefix(ro.Outcome, "assert:") || ro.Outcome == "panic" || ro.Outcome == "hang" {
+			} else if strings.HasPrefix(ro.Outcome, "assert:") || ro.Outcome == "panic" || ro.Outcome == "hang" || ro.Outcome == "crash" {
 				// The real code, run natively on this input, breaks the
 				// property although the engine's path passed: an assumption
 				// at the library/codec boundary (e.g. "a codec is a pure
